@@ -6,6 +6,7 @@ mod c10;
 mod c15;
 mod calibrate;
 mod common;
+mod mctool;
 mod pool;
 mod wit;
 mod worker;
